@@ -33,7 +33,7 @@ KNOBS = {
     "p_unknown": 0.03,
     "middlewares": (0, 1),
     "p_mw_replace": 0.0,
-    "outcomes": {"ret": 5, "exc": 4, "baseexc": 3, "nores": 2, "requeue": 0},
+    "outcomes": {"ret": 5, "exc": 4, "baseexc": 3, "nores": 2, "requeue": 0, "reject": 1},
     "label_msgs": True,
 }
 MARGIN_PER_STEP_US = 60_000
@@ -68,7 +68,7 @@ def gen(rs: int, tier: str, index: int) -> dict:
             if m.get("task") == 0:
                 m.pop("timeout", None)
                 for a in m.get("attempts", []):
-                    if a.get("out", ["ret"])[0] in ("requeue",):
+                    if a.get("out", ["ret"])[0] in ("requeue", "reject"):
                         a["out"] = ["ret"]
     return s
 
@@ -145,6 +145,10 @@ def oracle(script: dict, run: Any) -> List[Violation]:
         if timed_out:
             if not (s["is_err"] and s["err"] == "TimeoutError"):
                 out.append(Violation("C07/timeout-not-reported", f"delivery {d}: timed out but stored is_err={s['is_err']} err={s['err']}"))
+        elif outc[0] == "reject":
+            # Context.reject() raises TaskRejectedError: an ordinary failed execution, its error is stored
+            if not (s["is_err"] is True and s["err"] == "TaskRejectedError"):
+                out.append(Violation("C07/wrong-error", f"delivery {d}: the task called Context.reject() (TaskRejectedError) but stored is_err={s['is_err']} err={s['err']}"))
         elif outc[0] == "exc":
             if not (s["is_err"] is True and s["err"] == outc[1] and s["err_args"] == [repr(f"boom-{d}")]):
                 out.append(Violation("C07/wrong-error", f"delivery {d}: raised {outc[1]}('boom-{d}') but stored is_err={s['is_err']} err={s['err']} args={s['err_args']}"))
